@@ -2,6 +2,7 @@
 //! usage: pngv <prop> --tier quick|thorough --seed N --out DIR
 //!        pngv <prop> --replay-case "<case line>"
 mod c14;
+mod c01;
 mod c04;
 mod c07;
 mod c10;
@@ -61,6 +62,7 @@ fn main() {
         let r = match prop.as_str() {
             "C14" => c14::replay(case),
             "C15" => c15::replay(case),
+            "C01" => c01::replay(case),
             "C04" => c04::replay(case),
             "C07" => c07::replay(case),
             "C10" => c10::replay(case),
@@ -74,6 +76,7 @@ fn main() {
     match prop.as_str() {
         "C14" => c14::run(&a),
         "C15" => c15::run(&a),
+        "C01" => c01::run(&a),
         "C04" => c04::run(&a),
         "C07" => c07::run(&a),
         "C10" => c10::run(&a),
